@@ -508,7 +508,7 @@ fn case_binary(sh: &mut Shard, reg: &[Entry], idx: u64, sub: u64, r: &mut Rng, s
         }
     }
     if changed_ok {
-        sh.nontrivial(vmon_core::mix(&[1, vmon_core::fnv(e.name.as_bytes()), vmon_core::fast_hash(&b)]));
+        util::nt(sh, vmon_core::mix(&[1, vmon_core::fnv(e.name.as_bytes()), vmon_core::fast_hash(&b)]));
     }
     sh.sample(|| json!({"kind": "binary", "type": e.name, "valid_encoding_hex": vmon_core::hex_short(&b, 80)}));
 }
@@ -628,7 +628,7 @@ fn case_ordered(sh: &mut Shard, idx: u64, r: &mut Rng) {
     if !ok || out != enc_set(&keys, Some(sl)) {
         sh.violate(idx, "encode", format!("ordered-encode:set:{:?}:{}", sl, vmon_core::hex(&out)), "BTreeSet::serial_ctx does not produce length + sorted little-endian elements".into(), json!({"got_hex": vmon_core::hex(&out), "want_hex": vmon_core::hex(&enc_set(&keys, Some(sl)))}));
     }
-    sh.nontrivial(vmon_core::mix(&[2, vmon_core::fast_hash(&enc_map(&keys, &vals, None))]));
+    util::nt(sh, vmon_core::mix(&[2, vmon_core::fast_hash(&enc_map(&keys, &vals, None))]));
 }
 
 // ------------------------------------------------------------------ text forms
@@ -995,7 +995,7 @@ fn case_text(sh: &mut Shard, idx: u64, r: &mut Rng) {
             viol!("text-panic", format!("text-panic:PublicKeyEd25519:{}", w), format!("PublicKeyEd25519::from_str panicked on {:?}: {}", w, p), json!({"validator": "PublicKeyEd25519", "text": w}));
         }
     }
-    sh.nontrivial(vmon_core::mix(&[3, r.next()]));
+    util::nt(sh, vmon_core::mix(&[3, r.next()]));
 }
 
 // ------------------------------------------------------------------ arithmetic
@@ -1035,7 +1035,7 @@ fn case_arith(sh: &mut Shard, idx: u64, r: &mut Rng) {
             check("ExchangeRates::convert_euro_cent_to_amount", Some(rates.convert_euro_cent_to_amount(cents).micro_ccd()), w as i128, cents, rates.micro_ccd_per_euro.numerator());
         }
     }
-    sh.nontrivial(vmon_core::mix(&[4, r.next()]));
+    util::nt(sh, vmon_core::mix(&[4, r.next()]));
 }
 
 fn replay(reg: &[Entry], case: &vmon_core::Value, sh: &mut Shard) -> bool {
